@@ -191,8 +191,111 @@ def check_start_build_resets():
     return None
 
 
+class Batch30:
+    def __init__(self, tsha):
+        self.attributes = {'target_sha': tsha}
+        self.id = 7
+
+    async def status(self):
+        return {'state': 'success', 'complete': True}
+
+    async def cancel(self):
+        pass
+
+
+class BC30:
+    def list_batches(self, q):
+        async def it():
+            if 'source_sha=' in q:
+                yield Batch30('T1')
+
+        return it()
+
+
+class DB30:
+    async def execute_and_fetchone(self, *a):
+        return None
+
+
+class GH30:
+    """GitHub as the whole update loop sees it: branch head T1, one open PR (head S1), two required checks"""
+
+    def __init__(self):
+        self.puts, self.posts, self.conclusion, self.decision = [], [], 'SUCCESS', 'REVIEW_REQUIRED'
+
+    async def getitem(self, url):
+        return {'object': {'sha': 'T1'}}
+
+    def getiter(self, url):
+        async def it():
+            yield {'number': 1, 'title': 't', 'body': 'b', 'user': {'login': 'dev'}, 'assignees': [], 'requested_reviewers': [], 'labels': [], 'head': {'sha': 'S1', 'ref': 'x'}}
+
+        return it()
+
+    async def post(self, url, data=None):
+        if url != '/graphql':
+            self.posts.append((url, data))
+            return {}
+        nodes = [{'__typename': 'StatusContext', 'context': CTX, 'state': 'SUCCESS', 'isRequired': True}, {'__typename': 'CheckRun', 'name': 'lint', 'conclusion': self.conclusion, 'isRequired': True}]
+        return {'data': {'repository': {'pullRequest': {'reviewDecision': self.decision, 'commits': {'nodes': [{'commit': {'statusCheckRollup': {'contexts': {'nodes': nodes, 'pageInfo': {'endCursor': 'c', 'hasNextPage': False}}}}}]}}}}}
+
+    async def put(self, url, data=None):
+        self.puts.append((url, data))
+
+
+def check_failed_refresh():
+    """history: poll (all green, review pending); then the reviewer approves while the required check run `lint` is re-run and
+    still in progress (GitHub: conclusion null); poll; batch callback.  The PR must not be merged while GitHub reports a
+    required check of the head commit as not (yet) successful."""
+    ns['deploy_config'] = types.SimpleNamespace(external_url=lambda *a: 'u')
+    ns['MAX_CONCURRENT_PR_BATCHES'] = 3
+    ns['Batch'] = Batch30
+
+    class Dev:
+        gh_username = 'dev'
+
+    ns['AUTHORIZED_USERS'][:] = [Dev()]
+    try:
+        for conclusion in (None, 'SOMETHING_NEW'):
+            wb, pr = make(review='pending', statuses={CTX: GS.SUCCESS, 'lint': GS.SUCCESS})
+            pr.build_state = None
+            pr.batch = Batch30('T1')
+
+            async def noassign(gh):
+                pass
+
+            pr.assign_gh_reviewer_if_requested = noassign
+            gh, bc, db = GH30(), BC30(), DB30()
+            log_ = []
+
+            async def history():
+                await wb.update(db, bc, gh, False)
+                log_.append('poll 1: review=%s statuses=%s' % (pr.review_state, {k: v.name for k, v in pr.last_known_github_status.items()}))
+                if gh.puts:
+                    return
+                gh.decision, gh.conclusion = 'APPROVED', conclusion
+                for step in ('poll 2', 'batch callback'):
+                    try:
+                        if step == 'poll 2':
+                            await wb.update(db, bc, gh, False)
+                        else:
+                            await wb.notify_batch_changed(db, bc, gh, False)
+                        log_.append('%s: review=%s statuses=%s' % (step, pr.review_state, {k: v.name for k, v in pr.last_known_github_status.items()}))
+                    except ValueError as e:
+                        log_.append('%s raised ValueError(%s): review=%s statuses=%s' % (step, e, pr.review_state, {k: v.name for k, v in pr.last_known_github_status.items()}))
+                    if gh.puts:
+                        return
+
+            asyncio.run(history())
+            if gh.puts:
+                return {'confirmed': True, 'what': 'PR merged while GitHub reports the required check run `lint` of its head commit with conclusion %r (not successful): the refresh that failed on it had already recorded the approval next to the statuses of the earlier refresh' % (conclusion,), 'history': log_, 'merge_requests': gh.puts}
+    finally:
+        ns['AUTHORIZED_USERS'][:] = []
+    return None
+
+
 res = None
-for f in (check_mergeable, check_try_to_merge, check_new_head, check_labels, check_paging, check_start_build_resets):
+for f in (check_mergeable, check_try_to_merge, check_new_head, check_labels, check_paging, check_start_build_resets, check_failed_refresh):
     try:
         res = f()
     except Exception as e:  # pylint: disable=broad-except
